@@ -186,6 +186,14 @@ def check_compile(cx):
         s['actlimited'] and not np.array_equal(m.actuator_actrange[i], s['actrange']))):
       bad('%s: actlimited=%d range %s, XML attrs %s' % (nm, m.actuator_actlimited[i], m.actuator_actrange[i].tolist(),
                                                       s['attrs']))
+    dl = s.get('delay')
+    if dl:
+      icode = {'zoh': 0, 'linear': 1, 'cubic': 2}[dl['interp']]
+      if float(m.actuator_delay[i]) != dl['delay'] or [int(x) for x in m.actuator_history[i]] != [dl['nsample'], icode]:
+        bad('%s: delay %r history %s, XML delay=%r nsample=%d interp=%s' % (
+            nm, float(m.actuator_delay[i]), np.array(m.actuator_history[i]).tolist(), dl['delay'], dl['nsample'], dl['interp']))
+    elif float(m.actuator_delay[i]) != 0:
+      bad('%s: delay %r without delay attribute' % (nm, float(m.actuator_delay[i])))
     o0 = int(m.actuator_outadr[i])
     want_out = 3 if tk == 'so3' else 1
     if int(m.actuator_outnum[i]) != want_out:
@@ -384,6 +392,8 @@ def check_transmission(cx):
         if int(con['exclude'][c]) > 1:
           other += 1
           continue
+        if int(con['dim'][c]) == 1 and int(con['exclude'][c]) == 0:
+          cx.labels.add('body:active-condim1-contact' + (':pyramidal' if int(m.opt.cone) == E.mjCONE_PYRAMIDAL else ':elliptic'))
         p = np.array(con['pos'][c])
         n = np.array(con['frame'][c][:3])
         lib.mj_jac(m, d, jp, None, p, b1)
@@ -629,9 +639,17 @@ def check_forces(cx, variant):
   M = cx.M
   clamp_note = set()
   ctrl = np.array(d.ctrl)
+  # delayed actuators: 'the control input is read from the history buffer' (time - delay); the buffer content is known
+  # by construction (zeros on fresh data, the held constant after the hold phase), and it is that value which
+  # 'is automatically clamped to ctrlrange at runtime'
+  for i_, raw in cx.delay_raw.items():
+    ctrl[int(m.actuator_ctrladr[i_])] = raw
   ueff = A.effective_ctrl(ctrl, np.array(m.actuator_ctrllimited), np.array(m.actuator_ctrlrange), variant['clamp'])
   if np.any(ueff != ctrl):
     clamp_note.add('clamp:ctrl')
+  for i_ in cx.delay_raw:
+    if ueff[int(m.actuator_ctrladr[i_])] != ctrl[int(m.actuator_ctrladr[i_])]:
+      clamp_note.add('clamp:ctrl-delayed')
   force = np.array(d.actuator_force)
   adot = np.array(d.act_dot) if int(m.na) else np.zeros(0)
   act0 = np.array(d.act) if int(m.na) else np.zeros(0)
@@ -975,54 +993,93 @@ def run_case(ck, lib, gm, seed):
   check_compile(cx)
   d = lib.make_data(m)
   cx.d = d
-  rng = mg.apply_state(lib, m, d, seed, vel_scale=2.0, pos_scale=1.5 if gm.info['family'] == 'tree' else 0.15)
+  rng = mg.apply_state(lib, m, d, seed, vel_scale=2.0, pos_scale=0.15 if gm.info['family'] == 'contact' else 1.5)
   draw_inputs(cx, rng)
   base_flags = int(m.opt.disableflags)
   base_mask = int(m.opt.disableactuator)
-  # transmission stage evaluated with actuation enabled (the flag "disables all standard computations related to
-  # actuator forces", which in this tree includes actuator_velocity)
-  m.opt.disableflags = base_flags & ~E.mjDSBL_ACTUATION
-  try:
-    lib.mj_forward(m, d)
-  except Exception as e:
-    if 'rank-deficient' in str(e) or 'diagonal element too small' in str(e):
-      ck.discard('singular-inertia')       # degenerate tree (e.g. parallel hinges on one anchor), not an actuation question
-      return
-    raise
-  lib.warnings()
-  if not np.all(np.isfinite(np.array(d.qacc))):
-    ck.discard('nonfinite')
-    return
-  check_transmission(cx)
+  acts = gm.info['acts']
+  cx.delay_raw = {i: 0.0 for i, s_ in enumerate(acts) if s_.get('delay')}      # fresh history buffer: zeros
   clamps = set()
   groups = sorted(set(int(g) for g in np.array(m.actuator_group)))
-  variants = [dict(tag='xml-options', flags=base_flags, mask=base_mask)]
-  # runtime variations of the option fields (documented as runtime-settable)
-  variants.append(dict(tag='toggle-clampctrl', flags=base_flags ^ E.mjDSBL_CLAMPCTRL, mask=base_mask))
   gsel = groups[rng.randint(len(groups))]
-  variants.append(dict(tag='disable-group-%d' % gsel, flags=base_flags & ~E.mjDSBL_ACTUATION, mask=(1 << gsel) if 0 <= gsel <= 30 else 0))
   others = sum(1 << g for g in range(31) if g not in groups)
-  variants.append(dict(tag='disable-unused-groups', flags=base_flags & ~E.mjDSBL_ACTUATION, mask=others))
-  variants.append(dict(tag='toggle-actuation', flags=base_flags ^ E.mjDSBL_ACTUATION, mask=base_mask))
-  nassert = 0
-  for vi, var in enumerate(variants):
-    m.opt.disableflags = var['flags']
-    m.opt.disableactuator = var['mask']
-    var['clamp'] = not (var['flags'] & E.mjDSBL_CLAMPCTRL)
-    var['actuation'] = not (var['flags'] & E.mjDSBL_ACTUATION)
-    lib.mj_forward(m, d)
-    if vi and gm.info['family'] == 'contact':
-      cx.M = dense_moment(m, d)
-    c = check_forces(cx, var)
-    if var['actuation']:
-      nassert = max(nassert, cx.asserted)
-    clamps |= c
-    if vi in (0, 2, 4) or rng.randint(3) == 0:
-      check_step(cx, var)
+  nassert = [0]
+
+  def evaluate(phase):
+    # transmission stage evaluated with actuation enabled (the flag "disables all standard computations related to
+    # actuator forces", which in this tree includes actuator_velocity)
+    m.opt.disableflags = base_flags & ~E.mjDSBL_ACTUATION
+    m.opt.disableactuator = base_mask
+    try:
+      lib.mj_forward(m, d)
+    except Exception as e:
+      if 'rank-deficient' in str(e) or 'diagonal element too small' in str(e):
+        ck.discard('singular-inertia')     # degenerate tree (e.g. parallel hinges on one anchor), not an actuation question
+        return False
+      raise
     lib.warnings()
+    if not np.all(np.isfinite(np.array(d.qacc))):
+      ck.discard('nonfinite')
+      return False
+    check_transmission(cx)
+    variants = [dict(tag=phase + 'xml-options', flags=base_flags, mask=base_mask)]
+    # runtime variations of the option fields (documented as runtime-settable)
+    variants.append(dict(tag=phase + 'toggle-clampctrl', flags=base_flags ^ E.mjDSBL_CLAMPCTRL, mask=base_mask))
+    variants.append(dict(tag=phase + 'disable-group-%d' % gsel, flags=base_flags & ~E.mjDSBL_ACTUATION,
+                         mask=(1 << gsel) if 0 <= gsel <= 30 else 0))
+    variants.append(dict(tag=phase + 'disable-unused-groups', flags=base_flags & ~E.mjDSBL_ACTUATION, mask=others))
+    variants.append(dict(tag=phase + 'toggle-actuation', flags=base_flags ^ E.mjDSBL_ACTUATION, mask=base_mask))
+    for vi, var in enumerate(variants):
+      m.opt.disableflags = var['flags']
+      m.opt.disableactuator = var['mask']
+      var['clamp'] = not (var['flags'] & E.mjDSBL_CLAMPCTRL)
+      var['actuation'] = not (var['flags'] & E.mjDSBL_ACTUATION)
+      lib.mj_forward(m, d)
+      if vi and gm.info['family'] == 'contact':
+        cx.M = dense_moment(m, d)
+      c = check_forces(cx, var)
+      if var['actuation']:
+        nassert[0] = max(nassert[0], cx.asserted)
+      clamps.update(c)
+      if vi in (0, 2, 4) or rng.randint(3) == 0:
+        check_step(cx, var)
+      lib.warnings()
+    return True
+
+  if not evaluate(''):
+    return
+  if cx.delay_raw:
+    cx.labels.add('delay:fresh-buffer')
+    # hold the (possibly far out-of-range) control constant until every slot of every history buffer holds it and the
+    # delay has elapsed; stepping with actuation disabled keeps the dynamics tame (the history is still advanced)
+    dt = float(m.opt.timestep)
+    k = max(int(s_['delay']['nsample']) + int(math.ceil(s_['delay']['delay'] / dt)) for s_ in acts if s_.get('delay')) + 2
+    m.opt.disableflags = base_flags | E.mjDSBL_ACTUATION
+    m.opt.disableactuator = base_mask
+    held = np.array(d.ctrl).copy()
+    ok = True
+    lib.warnings()
+    try:
+      for _ in range(k):
+        d.ctrl[:] = held
+        lib.mj_step(m, d)
+    except Exception as e:
+      if 'diagonal element too small' not in str(e) and 'rank-deficient' not in str(e):
+        raise
+      ok = False
+    if lib.warnings() or not np.all(np.isfinite(np.array(d.qpos))) or not np.all(np.isfinite(np.array(d.qvel))):
+      ok = False
+    if ok:
+      for i_ in cx.delay_raw:
+        cx.delay_raw[i_] = float(held[int(m.actuator_ctrladr[i_])])
+      cx.so3 = {}
+      if not evaluate('[delay elapsed] '):
+        return
+      cx.labels.add('delay:elapsed(held %d steps)' % min(k, 12))
+    else:
+      cx.labels.add('delay:hold-unstable(skipped)')
   m.opt.disableflags = base_flags
   m.opt.disableactuator = base_mask
-  acts = gm.info['acts']
   plain = all(s['trn']['kind'] in ('joint', 'jointinparent') and s['trn'].get('jtype') in ('hinge', 'slide') for s in acts)
   nontrivial = bool(clamps) or not plain
   labels = set(gm.labels()) | cx.labels | clamps
@@ -1047,11 +1104,11 @@ def run_case(ck, lib, gm, seed):
     ALL_LABELS[l] += 1
   labels = sorted(l for l in labels if l.startswith(('act:', 'trn:', 'dyn:', 'gain:', 'bias:', 'clamp:', 'tendon', 'joint-',
                                                    'circle', 'muscle', 'actearly', 'group', 'step:', 'fd-', 'body:',
-                                                   'skip:', 'invariants', 'actuator-gravcomp', 'integrator:',
+                                                   'skip:', 'invariants', 'actuator-gravcomp', 'integrator:', 'delay:',
                                                    'actrange')))
   sample = dict(xml=gm.xml, seed=seed, actuators=['%s/%s' % (s['kind'], s['trn']['kind']) for s in acts],
                 clamps_active=sorted(clamps), ctrl=np.array(d.ctrl).tolist(),
-                actuator_force=np.array(d.actuator_force).tolist(), outputs_with_force_law=nassert)
+                actuator_force=np.array(d.actuator_force).tolist(), outputs_with_force_law=nassert[0])
   ck.case(nontrivial=nontrivial, key=(gm.xml, seed), sample=sample, labels=labels)
 
 
@@ -1072,12 +1129,14 @@ def main(ck):
       'dcmotor with inductance and pid+slewmax are covered by invariants only (clamps, moment arms, qfrc = moment^T force)']
   n_tree = ck.budget(1100, 16000)
   n_con = ck.budget(300, 4000)
+  n_del = ck.budget(150, 2500)
 
   def test(case):
     gm, seed = case
     run_case(ck, lib, gm, seed)
   ck.run_hypothesis(test, st.tuples(gen_act.act_models('tree'), mg.state_seed()), n_tree, name='tree')
   ck.run_hypothesis(test, st.tuples(gen_act.act_models('contact'), mg.state_seed()), n_con, name='contact')
+  ck.run_hypothesis(test, st.tuples(gen_act.act_models('delay'), mg.state_seed()), n_del, name='delay')
   ck.extra['worst_error_over_scale'] = {k: float('%.3g' % v) for k, v in sorted(STATS.items())}
   print('[C27] worst error/scale:', ck.extra['worst_error_over_scale'], 'discards:', dict(ck.discards), flush=True)
   ck.extra['label_histogram_full'] = dict(sorted(ALL_LABELS.items()))
@@ -1198,7 +1257,8 @@ limits), each evaluated under five runtime option variants. Checked against the 
 ctrl clamping (ctrlrange/ctrllimited/clampctrl), act_dot for integrator/filter/filterexact/muscle, actearly (next
 activation), gain fixed/affine/muscle, bias none/affine/muscle, forcerange, tendon and joint actuatorfrcrange, actuator
 gravcomp, qfrc_actuator = moment^T force, group disable (zero force, activation not integrated), actuation flag, act after
-mj_step (Euler/implicit/implicitfast: documented integration; all integrators: inside actrange); shortcut tables
+mj_step (Euler/implicit/implicitfast: documented integration; all integrators: inside actrange); delayed controls
+(delay/nsample/interp: the value read from the history buffer is clamped like a direct control); shortcut tables
 (motor, position, velocity, intvelocity, damper, cylinder, muscle, adhesion, pid, orientation, stateless dcmotor) and
 the limited/auto flag semantics against the compiled model. Transmission: lengths from their documented definitions,
 actuator_moment against central finite differences of actuator_length (hinge/slide joints, fixed+spatial tendons,
@@ -1215,7 +1275,8 @@ transmissions is required for the position (no filter) and intvelocity shortcuts
 servo-shaped general actuators, filtered position and pid (documentation silent). Not asserted: distribution of a
 tendon-level clamp among several actuators (only the total and sign/magnitude monotonicity), combination of tendon clamp
 and forcerange (order undocumented), tendon actuatorfrcrange with gear != 1 (generator keeps gear 1 there), RK4 activation
-integration (only the actrange invariant), ctrl delay/history, user/plugin types, dampratio/inheritrange, sleeping.
+integration (only the actrange invariant), interpolated delayed reads of a time-varying ctrl history (delay family: fresh
+zero buffer and constant held control only), user/plugin types, dampratio/inheritrange, sleeping.
 Tolerances: |a-b| <= K*scale with scale = sum of the absolute values of the terms of the compared expression; K_FORCE =
 1e-11, K_LEN = K_MOM = K_QFRC = 1e-13, K_GEO = 1e-12, K_FD = 1e-5 (central differences, h = 1e-6): each >= 100x the worst
 ratio observed on the unchanged tree over quick seeds 1-3, two thorough runs (19805 + 19778 cases) and an 11379-case run
